@@ -27,7 +27,7 @@ def DecPost (hL : LibDecContract L b Dec) (s : τ) (u v w x inp : Bytes) (room :
     (0 < room → fl = Flush.full → inp = [] → r.out ≠ [] ∨ r.res = Res.streamEnd))
 
 theorem wrapProcess_dec_spec (hL : LibDecContract L b Dec) {s : τ} {u v : Bytes} (w x tail inp : Bytes) (room : Nat)
-    (fl : Flush) (hR : hL.R s u v) (hdec : Dec (u ++ w) = some x) (hin : IsPre inp (w ++ tail)) :
+    (fl : Flush) (hfl : fl ≠ Flush.sync) (hR : hL.R s u v) (hdec : Dec (u ++ w) = some x) (hin : IsPre inp (w ++ tail)) :
     ∃ r, wrapProcess L b false s inp room fl = some r ∧ DecPost hL s u v w x inp room fl r := by
   have main := iter_fuel (wrapBody L b false fl)
     (fun a => a.2.2.2.1 ≤ inp.length ∧ a.2.2.2.1 ≤ w.length ∧ a.2.1 = inp.drop a.2.2.2.1 ∧ a.2.2.2.2.length ≤ room ∧
@@ -37,7 +37,7 @@ theorem wrapProcess_dec_spec (hL : LibDecContract L b Dec) {s : τ} {u v : Bytes
     (DecPost hL s u v w x inp room fl)
     (fun a => a.2.1.length + a.2.2.1) ?_ (s, inp, room, 0, [])
     ⟨Nat.zero_le _, Nat.zero_le _, by simp, by simp, by simp, by simpa using hR, by
-      have := (hL.valid w x tail [] 1 fl hR hdec (IsPre.nil _) (by omega)).2.2.2.2.1
+      have := (hL.valid w x tail [] 1 fl hfl hR hdec (IsPre.nil _) (by omega)).2.2.2.2.1
       obtain ⟨z, hz⟩ := this
       exact ⟨(L.call s [] 1 fl).out ++ z, by simp [hz, List.append_assoc]⟩, Or.inl ⟨rfl, rfl, rfl⟩⟩
   · obtain ⟨r, hr, hq⟩ := main
@@ -59,7 +59,7 @@ theorem wrapProcess_dec_spec (hL : LibDecContract L b Dec) {s : τ} {u v : Bytes
         rw [hinp]
         have := hin.drop ai
         rwa [List.drop_append_of_le_length haw] at this
-      obtain ⟨hret, hcl, hcw, hol, hpo, hend, hkeep⟩ := hL.valid (w.drop ai) x tail inp' room' fl hRs hdec' hin' hr0
+      obtain ⟨hret, hcl, hcw, hol, hpo, hend, hkeep⟩ := hL.valid (w.drop ai) x tail inp' room' fl hfl hRs hdec' hin' hr0
       have hlen : inp'.length = inp.length - ai := by rw [hinp]; simp
       have hwl : (w.drop ai).length = w.length - ai := by simp
       have hnoerr : isLibError b (L.call st inp' room' fl).ret = false := by
@@ -84,7 +84,7 @@ theorem wrapProcess_dec_spec (hL : LibDecContract L b Dec) {s : τ} {u v : Bytes
         · right
           have hai0 : ai = 0 := by omega
           have hinp0 : inp' = inp := by rw [hinp, hai0]; simp
-          rcases hL.progress (w.drop ai) x tail inp' room' fl hRs hdec' hin' hr0 (by rw [hinp0]; exact hne) with h | h
+          rcases hL.progress (w.drop ai) x tail inp' room' fl hfl hRs hdec' hin' hr0 (by rw [hinp0]; exact hne) with h | h
           · omega
           · rcases htrack with ⟨h1, _, _⟩ | ⟨h1, _⟩
             · rw [← h1]; exact h
@@ -129,7 +129,7 @@ theorem wrapProcess_dec_spec (hL : LibDecContract L b Dec) {s : τ} {u v : Bytes
             · exact hlt
             · exfalso
               have hcw' : (L.call st inp' room' fl).consumed = (w.drop ai).length := by omega
-              rcases hL.drain (w.drop ai) x tail inp' room' fl hRs hdec' hin' hr0 hcw' with h | h
+              rcases hL.drain (w.drop ai) x tail inp' room' fl hfl hRs hdec' hin' hr0 hcw' with h | h
               · exact h hout'
               · exact hE h
           have htot := hL.total hkeep'
@@ -158,7 +158,7 @@ theorem wrapProcess_dec_spec (hL : LibDecContract L b Dec) {s : τ} {u v : Bytes
           · rw [if_pos hbuf]
             have hbfout : (L.call st inp' room' fl).out ≠ [] := by
               intro hnil
-              obtain ⟨q1, q2⟩ := hL.buf_quiet (w.drop ai) x tail inp' room' fl hRs hdec' hin' hr0 hbuf hnil
+              obtain ⟨q1, q2⟩ := hL.buf_quiet (w.drop ai) x tail inp' room' fl hfl hRs hdec' hin' hr0 hbuf hnil
               apply hrule
               have hfull : fl = Flush.full := by
                 rcases q2 with h | h
@@ -201,7 +201,7 @@ theorem wrapProcess_dec_spec (hL : LibDecContract L b Dec) {s : τ} {u v : Bytes
                 cases hh : (L.call st inp' room' fl).out with
                 | nil => exact absurd hh this
                 | cons a t => simp only [List.length_cons]; omega
-              · exact hL.bytes (w.drop ai) x tail inp' room' fl hRs hdec' hin' hr0 h0 hok
+              · exact hL.bytes (w.drop ai) x tail inp' room' fl hfl hRs hdec' hin' hr0 h0 hok
             refine ⟨fun r h => (by cases h), ?_⟩
             intro a' ha'; cases ha'
             refine ⟨⟨by simp only; omega, by simp only; omega, by simp only; rw [hinp, List.drop_drop], by simp only [List.length_append]; omega,
@@ -248,7 +248,7 @@ theorem wrapProcess_dec_spec (hL : LibDecContract L b Dec) {s : τ} {u v : Bytes
 theorem wrapProcess_dec_idle (hL : LibDecContract L b Dec) {s : τ} (room : Nat) (hR : hL.R s [] []) (hr : 0 < room) :
     wrapProcess L b false s [] room Flush.full = some ⟨(L.call s [] room Flush.full).st, 0, [], Res.streamEnd⟩ ∧
     hL.R (L.call s [] room Flush.full).st [] [] := by
-  obtain ⟨hret, hout, hc, hR'⟩ := hL.idle room Flush.full hR hr
+  obtain ⟨hret, hout, hc, hR'⟩ := hL.idle room Flush.full (by decide) hR hr
   have htot : L.totalIn (L.call s [] room Flush.full).st = 0 := (hL.total hR').2 rfl
   have hnoerr : isLibError b (L.call s [] room Flush.full).ret = false := by
     rcases hret with h | ⟨h, _⟩ <;> rw [h] <;> cases b <;> rfl
@@ -270,22 +270,22 @@ def wrapDecContract (hL : LibDecContract L b Dec) : DecContract (wrapCodec L b f
   init := hL.init
   dec_nil := hL.dec_nil
   valid := by
-    intro s u v w x tail inp room fl hR hd hin hfl
-    obtain ⟨r, hr, hq⟩ := wrapProcess_dec_spec hL w x tail inp room fl hR hd hin
+    intro s u v w x tail inp room fl hns hR hd hin hfl
+    obtain ⟨r, hr, hq⟩ := wrapProcess_dec_spec hL w x tail inp room fl hns hR hd hin
     simp only [wrapCodec, hr]
     rcases hq with ⟨h1, h2, _⟩ | ⟨h1, h2, h3, h4, h5, h6, h7, h8, _, _⟩
     · have := hfl h1; omega
     · exact ⟨h1, h2, h3, h4, h5, h6, h7, h8⟩
   progress := by
-    intro s u v w x tail inp room fl hR hd hin hfl hr0 hne
-    obtain ⟨r, hr, hq⟩ := wrapProcess_dec_spec hL w x tail inp room fl hR hd hin
+    intro s u v w x tail inp room fl hns hR hd hin hfl hr0 hne
+    obtain ⟨r, hr, hq⟩ := wrapProcess_dec_spec hL w x tail inp room fl hns hR hd hin
     simp only [wrapCodec, hr]
     rcases hq with ⟨h1, h2, _⟩ | ⟨_, _, _, _, _, _, _, _, h9, _⟩
     · have := hfl h1; omega
     · exact h9 hr0 hne
   drain := by
     intro s u v x room hR hd hr0
-    obtain ⟨r, hr, hq⟩ := wrapProcess_dec_spec hL [] x [] [] room Flush.full hR (by simpa using hd) (IsPre.nil _)
+    obtain ⟨r, hr, hq⟩ := wrapProcess_dec_spec hL [] x [] [] room Flush.full (by decide) hR (by simpa using hd) (IsPre.nil _)
     simp only [wrapCodec, hr]
     rcases hq with ⟨_, h2, _⟩ | ⟨_, _, _, _, _, _, _, _, _, h10⟩
     · simp at h2
@@ -297,7 +297,7 @@ def wrapDecContract (hL : LibDecContract L b Dec) : DecContract (wrapCodec L b f
     exact ⟨by simp, trivial, trivial, h2⟩
   truncated := by
     intro s u v w x room hR hu hw hd hr0
-    obtain ⟨r, hr, hq⟩ := wrapProcess_dec_spec hL w x [] [] room Flush.full hR hd (IsPre.nil _)
+    obtain ⟨r, hr, hq⟩ := wrapProcess_dec_spec hL w x [] [] room Flush.full (by decide) hR hd (IsPre.nil _)
     simp only [wrapCodec, hr]
     have hw0 : 0 < w.length := by
       cases w with
@@ -368,7 +368,7 @@ def decLibContract (P : Params) (b : Backend) : LibDecContract (decLib P b) b de
     · intro h; exact List.eq_nil_of_length_eq_zero h
     · intro h; rw [h]; rfl
   valid := by
-    intro s u v w x tail inp room fl hR hd hin hr
+    intro s u v w x tail inp room fl hns hR hd hin hr
     obtain ⟨c1, c2, c3, c4, c5, c6, c7, c8, c9, _, _, _⟩ := decCore_spec P hR.1 hd inp tail hin room
     rw [decLib_call_eq P b s inp room fl hR.1.1 c1]
     generalize decCore P s.eng inp room = c at *
@@ -406,7 +406,7 @@ def decLibContract (P : Params) (b : Backend) : LibDecContract (decLib P b) b de
       · show s.total + c.n = (u ++ inp.take c.n).length
         rw [hR.2, List.length_append, List.length_take, Nat.min_eq_left c2]
   bytes := by
-    intro s u v w x tail inp room fl hR hd hin hr hne hok
+    intro s u v w x tail inp room fl hns hR hd hin hr hne hok
     obtain ⟨c1, _⟩ := decCore_spec P hR.1 hd inp tail hin room
     rw [decLib_call_eq P b s inp room fl hR.1.1 c1] at hok ⊢
     by_cases h1 : ((decCore P s.eng inp room).done && decide (((decCore P s.eng inp room).q.drop (decCore P s.eng inp room).m).length = 0)) = true
@@ -420,9 +420,9 @@ def decLibContract (P : Params) (b : Backend) : LibDecContract (decLib P b) b de
       have : (decCore P s.eng inp room).m ≤ (decCore P s.eng inp room).q.length := by rw [c9]; omega
       omega
   progress := by
-    intro s u v w x tail inp room fl hR hd hin hr hne
+    intro s u v w x tail inp room fl hns hR hd hin hr hne
     obtain ⟨c1, _⟩ := decCore_spec P hR.1 hd inp tail hin room
-    have hstep := (decContract P).progress w x tail inp room Flush.none hR.1 hd hin (fun h => by cases h) hr hne
+    have hstep := (decContract P).progress w x tail inp room Flush.none (by decide) hR.1 hd hin (fun h => by cases h) hr hne
     change 0 < (decStep P s.eng inp room Flush.none).consumed ∨ decPend (decStep P s.eng inp room Flush.none).st < decPend s.eng at hstep
     rw [decStep_eq P inp Flush.none hr hR.1.1 c1] at hstep
     rw [decLib_call_eq P b s inp room fl hR.1.1 c1]
@@ -444,7 +444,7 @@ def decLibContract (P : Params) (b : Backend) : LibDecContract (decLib P b) b de
       simp only [Bool.false_eq_true, if_false] at hstep
       split at hstep <;> exact hstep
   buf_quiet := by
-    intro s u v w x tail inp room fl hR hd hin hr hbuf hout
+    intro s u v w x tail inp room fl hns hR hd hin hr hbuf hout
     obtain ⟨c1, c2, _⟩ := decCore_spec P hR.1 hd inp tail hin room
     rw [decLib_call_eq P b s inp room fl hR.1.1 c1] at hbuf hout ⊢
     by_cases h1 : ((decCore P s.eng inp room).done && decide (((decCore P s.eng inp room).q.drop (decCore P s.eng inp room).m).length = 0)) = true
@@ -461,7 +461,7 @@ def decLibContract (P : Params) (b : Backend) : LibDecContract (decLib P b) b de
         · exact absurd hstuck (dec_not_stuck P hR.1 hd inp tail hin hr hne (by intro h; apply h1; simp [h.1, h.2]))
       exact ⟨by show (decCore P s.eng inp room).n = inp.length; rw [hstuck.1, hinp]; rfl, Or.inr hinp⟩
   drain := by
-    intro s u v w x tail inp room fl hR hd hin hr hcw
+    intro s u v w x tail inp room fl hns hR hd hin hr hcw
     obtain ⟨c1, c2, c3, c4, c5, c6, c7, c8, c9, _⟩ := decCore_spec P hR.1 hd inp tail hin room
     rw [decLib_call_eq P b s inp room fl hR.1.1 c1] at hcw ⊢
     by_cases h1 : ((decCore P s.eng inp room).done && decide (((decCore P s.eng inp room).q.drop (decCore P s.eng inp room).m).length = 0)) = true
@@ -481,7 +481,7 @@ def decLibContract (P : Params) (b : Backend) : LibDecContract (decLib P b) b de
       rw [c9] at this hq
       omega
   idle := by
-    intro s room fl hR hr
+    intro s room fl hns hR hr
     obtain ⟨⟨hb, hp, hf⟩, htot⟩ := hR
     rw [parse_nil] at hp
     simp only [Prod.mk.injEq, List.length_nil, List.nil_append, true_and] at hp
